@@ -344,6 +344,27 @@ def check_corruption(desc, label, cls, obj, nrepl):
                     c.update({'clause': 'corruption', 'class': '', 'line': li, 'col': ci, 'was': ch, 'now': r,
                               'detail': 'accepted silently; reloaded bytes %s' % ('equal' if safe_bytes(o2) == raw else 'differ')})
                     fails.append(c)
+    # whole checksum line replaced by a fixed value (the all-zero checksum is the one a truthiness test would skip)
+    actual = '=' + radix64_encode(crc24(raw).to_bytes(3, 'big'))
+    for stated in ('=AAAA', '=AAAB', '=////', '=gAAA', '=AAA/'):
+        if stated == actual:
+            continue
+        n += 1
+        ml = list(lines)
+        ml[end - 1] = stated
+        t = '\n'.join(ml)
+        try:
+            o2, w = load(cls, t)
+        except Exception as ex:
+            how['exception ' + type(ex).__name__] += 1
+            continue
+        if any('crc' in x.lower() for x in w):
+            how['warning "Incorrect crc24"'] += 1
+            continue
+        c = dict(desc)
+        c.update({'clause': 'corruption', 'class': '', 'line': end - 1, 'col': 0, 'was': lines[end - 1], 'now': stated,
+                  'detail': 'checksum line replaced by %s (actual %s): accepted silently' % (stated, actual)})
+        fails.append(c)
     return n, harmless, fails, how
 
 
